@@ -92,10 +92,19 @@ PreOK(r) == IF r.role = "active"
 JudgeC08(r) == r.fault = "" /\ PreOK(r) /\ StepsOK(Cfg(r), Start(r), r.steps)
 RECURSIVE StateAt(_, _, _, _)
 StateAt(cfg, s, steps, i) == IF i = 1 THEN s ELSE StateAt(cfg, Burst(cfg, s, Head(steps).tx).s, Tail(steps), i - 1)
+(* the same defect showing later: the deselection at step i was accepted and answered (State() may even have read NotSelected
+   for a moment), but from then on the library behaves exactly as the transducer would had the session stayed Selected *)
+ActsAsIfStillSelected(r, i) ==
+    LET cfg == Cfg(r) si == StateAt(cfg, Start(r), r.steps, i) b == Burst(cfg, si, r.steps[i].tx) IN
+    /\ si.sel = "S" /\ b.s.up /\ b.s.sel = "NS" /\ AnswersOK(cfg, si, r.steps[i])
+    /\ StepsOK(cfg, Start(r), SubSeq(r.steps, 1, i - 1))
+    /\ StepsOK(cfg, [b.s EXCEPT !.sel = "S"], SubSeq(r.steps, i + 1, Len(r.steps)))
 WhyC08(r) == IF r.fault /= "" THEN "Fault" ELSE IF ~PreOK(r) THEN "Pre"
              ELSE LET i == FirstBad(Cfg(r), Start(r), r.steps, 1) IN
                   IF i > 0 /\ StuckSelected(Cfg(r), StateAt(Cfg(r), Start(r), r.steps, i), r.steps[i])
-                  THEN "StuckSelected" \o ToString(i) ELSE "Step" \o ToString(i)
+                  THEN "StuckSelected" \o ToString(i)
+                  ELSE IF \E k \in 1..Len(r.steps) : ActsAsIfStillSelected(r, k) THEN "StuckSelectedLater" \o ToString(i)
+                  ELSE "Step" \o ToString(i)
 
 Judge(r) == CASE r.t = "c08" -> JudgeC08(r)
 Why(r) == CASE r.t = "c08" -> WhyC08(r)
